@@ -139,6 +139,9 @@ fn parser_bytes(data: &[u8]) -> Option<(u8, Vec<u8>)> {
     let mut b = data[1..].to_vec();
     if data[0] & 1 == 1 {
         crate::refmodel::sml::fix_crcs(&mut b);
+        if data[0] & 2 == 2 {
+            crate::refmodel::sml::fix_crcs_scan(&mut b);
+        }
     }
     Some((data[0], b))
 }
